@@ -20,6 +20,9 @@ CHECKS = {
  'C06': dict(text='Each algorithm is a finite automaton (Checksums.tla). TLC exhaustively model-checks the product automaton (two copies, one substitution or one adjacent swap; ChecksumPA.tla, ChecksumGenR2L.tla): reachability covers strings of EVERY length. Done for the mathematical definitions and for the automaton EXTRACTED from the implementation (every state x symbol asked from the real checksum()), for every alphabet; negative instances must be refuted; TLC-simulated strings are replayed into checksum/is_valid/calc_check_digit and validated against the extracted automaton (Trace_Checksum.tla).',
              note='The unbounded claim is about the extracted automaton; that the code is that automaton is shown by conformance on sampled strings (X1-X3).',
              tech='TLC exhaustive model checking of product automata over extracted transition tables + trace validation', ref='DESIGN.md §4 C06'),
+ 'C16': dict(text='MC_GS1.tla model-checks the encode/decode round trip on an abstract identifier table (fixed, variable, int and decimal identifiers, all mappings of <= 3 identifiers, separator on/off): it holds under the canonical-value conditions and the implementation\'s zero-padding of variable-length decimals is REFUTED as a design. On the real table (gs1_ai.dat, parsed independently) the driver builds mappings of 1-5 identifiers with canonical values of the declared formats (every identifier alone in 3 length classes + random combinations) in every separator/parentheses mode; TLC compares the code\'s encode() with the specification\'s encoder GS1.tla (E1) and judges RT1 info(encode(m)) = m, RT2 info(validate(x)) = info(x), RT3 validate(validate(x)) = validate(x); value fitness is re-checked by the spec (M1).',
+             note='The spec encoder covers str/int/decimal/N6-date values; rarer date-time shapes get the black-box clauses RT1-RT3 only.',
+             tech='TLC model checking of the abstract round trip (MC_GS1.tla) + TLA+ encoder (GS1.tla) evaluated by TLC in trace validation', ref='DESIGN.md §4 C16'),
  'C17': dict(text='MC: product automata of the generic algorithms (standard and extracted from the code) and positional weighted-sum automata for ISBN-10/ISSN/EAN (Weighted.tla) prove single-substitution / adjacent-swap detection for all numbers; TRACE: exhaustive neighbourhood (every position x every same-class character, every adjacent pair of different digits) of corpus + synthesised valid numbers of the 30 bound modules recorded from the code; TLC checks that each edit is one the property talks about and that it was rejected (Trace_Typo.tla).',
              note='Module list and exclusions (with reasons) in bindings/single_error.json.',
              tech='TLC model checking of product automata + TLC trace validation of exhaustive neighbourhoods', ref='DESIGN.md §4 C17'),
